@@ -414,6 +414,13 @@ func (e *enc) typeFacts(n string, t types.Type) {
 		if it, ok := t.Underlying().(*types.Interface); ok && it.NumMethods() > 0 && e.w.implsComparable(t) {
 			e.assume(fmt.Sprintf("(not (uncomparable %s))", n))
 		}
+		// an unnamed basic type has no methods: it is never the dynamic type of a non-empty interface
+		if it, ok := t.Underlying().(*types.Interface); ok && it.NumMethods() > 0 {
+			e.assume(fmt.Sprintf("(not (or (is-IF64 %s) (is-IStr %s) (is-IBool %s)))", n, n, n))
+			if !e.w.hasFloatImpl(t) {
+				e.assume(fmt.Sprintf("(not (is-IFlt %s))", n)) // no named floating-point type implements it
+			}
+		}
 		// dynamic type must be a possible one for the static interface type
 		if it, ok := t.Underlying().(*types.Interface); ok && it.NumMethods() > 0 {
 			if c := e.ifaceMembership(n, t); c != "" {
